@@ -450,4 +450,31 @@ theorem fromCsvPre_plain (ar : Arith) (o : Opts) (hdeg : o.degrees = false) (fil
     simp only [seqsOf] at e2
     rw [e1, e2]
 
+/-- an integer scalar (what `ApplyValue` scales) -/
+def isIntScalar : Value → Bool
+  | .int8 _ | .uint8 _ | .int16 _ | .uint16 _ | .int32 _ | .uint32 _ | .int64 _ | .uint64 _ => true
+  | _ => false
+
+theorem field_rt_scaled (ar : Arith) (o : Opts) (ds : List Desc) (msg : Message) (fld : Field) (pm : PMesg) (p : PField)
+    (hpm : pm ∈ profile) (hnum : pm.num = msg.num) (hn : msg.num < mfgRangeMin) (hp : p ∈ pm.fields)
+    (hfn : fieldNumOf fld = p.num) (hdeg : o.degrees = false) (hraw : o.raw = false) (hsc : isScaledField p.scale p.offset = true)
+    (hsub : substitute msg.fields p.subs = none) (harr : p.array = false) (hb : p.isBool = false)
+    (hv : isIntScalar fld.value = true)
+    (har : ar.scaled fld.value p.bt p.scale p.offset = some fld.value) :
+    readCell ar ds msg.num (writeField o msg fld) = .ok (.field (mkField p.num p.bt fld.value)) := by
+  obtain ⟨h1, h2, h3, h4, h5, _⟩ := field_facts hpm (hnum ▸ hn) hp
+  rw [hnum] at h1 h2
+  have hss : scalarsOf fld.value = some [fld.value] := by
+    cases hvv : fld.value <;> simp [hvv, isIntScalar] at hv <;> rfl
+  have hw : writeField o msg fld = ⟨txt p.name, [.scaled fld.value p.scale p.offset], txt p.units⟩ := by
+    simp only [writeField, hfn, h2, hsub, hdeg, Bool.false_and, Bool.false_eq_true, ↓reduceIte]
+    congr 1
+    simp [fieldAtoms, hdeg, hraw, hsc, hss, cellPieces]
+  rw [hw]
+  have hdg : (txt p.units == degreesTxt && p.bt == btSint32) = false := by
+    cases hc : (txt p.units == degreesTxt && p.bt == btSint32)
+    · rfl
+    · simp only [Bool.and_eq_true, beq_iff_eq] at hc; exact absurd hc h5
+  simp [readCell, h3, h1, h2, harr, parseCellValue, parseAtom, hdg, hb, har]
+
 end Fit.Csv
